@@ -34,7 +34,9 @@ func init() {
 			{Name: "write-without-diff-guard", File: "controller/main.go",
 				Old: "\tif !reflect.DeepEqual(toWrite, svcRo) {\n", New: "\tif !reflect.DeepEqual(toWrite, svcRo) || len(prevIPs) == 0 {\n", Expect: "WRITE-ON-CHANGE"},
 			{Name: "new-clear-reason", File: "controller/service.go",
-				Old: "\t// If svc currently has 1 ip and policy PreferDualStack", New: "\tif len(lbIPs) == 2 && familyPolicy == v1.IPFamilyPolicySingleStack {\n\t\tc.clearServiceState(key, svc)\n\t\tlbIPs = []net.IP{}\n\t}\n\t// If svc currently has 1 ip and policy PreferDualStack", Expect: "HAPPY-PATH"},
+				Old: "\tclusterIPsIPFamily, _ := ipfamily.ForService(svc)\n", New: "\tif len(lbIPs) == 2 && familyPolicy == v1.IPFamilyPolicySingleStack {\n\t\tc.clearServiceState(key, svc)\n\t\tlbIPs = []net.IP{}\n\t}\n\tclusterIPsIPFamily, _ := ipfamily.ForService(svc)\n", Expect: "HAPPY-PATH"},
+			{Name: "gain-for-single-stack-cluster-ips", File: "controller/service.go",
+				Old: "familyPolicy == v1.IPFamilyPolicyPreferDualStack && clusterIPsIPFamily == ipfamily.DualStack {", New: "familyPolicy == v1.IPFamilyPolicyPreferDualStack {\n\t\t_ = clusterIPsIPFamily", Expect: "gain-survives-next-sync"},
 			{Name: "assign-error-ignored-for-keep", File: "controller/service.go",
 				Old: "\t\t\tc.client.Infof(svc, \"ClearAssignment\", \"current IP for %q not allowed by config, will attempt for new IP assignment: %s\", key, err)\n\t\t\tc.clearServiceState(key, svc)\n\t\t\tlbIPs = []net.IP{}\n\t\t}\n",
 				New: "\t\t\tc.client.Infof(svc, \"ClearAssignment\", \"current IP for %q not allowed by config, will attempt for new IP assignment: %s\", key, err)\n\t\t\tc.clearServiceState(key, svc)\n\t\t\tlbIPs = []net.IP{}\n\t\t}\n\t\tif len(lbIPs) > 1 && familyPolicy == v1.IPFamilyPolicyPreferDualStack {\n\t\t\tlbIPs = lbIPs[:1]\n\t\t}\n", Expect: "HAPPY-PATH"},
@@ -81,6 +83,7 @@ func c03Reasons(f *chk.Fn, g *chk.Graph, lbIPs types.Object) []chk.Guard {
 }
 
 func runC03(p *chk.Prog, r *chk.Report) {
+	assignCommitsRule(p, r)
 	c03Converge(p, r)
 	c03KeepExisting(p, r)
 	c03Rehome(p, r)
@@ -97,7 +100,7 @@ func runC03(p *chk.Prog, r *chk.Report) {
 func c03Converge(p *chk.Prog, r *chk.Report) {
 	hp := r.Rule("HAPPY-PATH", "B path", "in controller.convergeBalancer, after deleting every branch edge that states one of the 12 enumerated admissible reasons (frozen table c03Reasons), no clearServiceState, no Allocator.Unassign, no allocation call and no assignment to the held-address list other than the PreferDualStack append is reachable", 4)
 	ro := r.Rule("READOPT", "B path", "in controller.convergeBalancer allocateIPs is reachable only with len(lbIPs) == 0, and every path from the entry to it passes Assign(key, svc, lbIPs, …) of the addresses parsed from the status or clearServiceState (an address recorded in the status is re-adopted or deliberately dropped before anything is allocated)", 3)
-	ga := r.Rule("GAIN", "B path", "the only growth of the held set: lbIPs = append(lbIPs, newIP) with newIP from AllocateFromPoolForAdditionalFamily(key, svc, lbIPs[0], c.ips.Pool(key), …) under len(lbIPs) == 1 && PreferDualStack; that allocator method assigns {existingIP, new} and searches only the named pool", 4)
+	ga := r.Rule("GAIN", "B path", "the only growth of the held set: lbIPs = append(lbIPs, newIP) with newIP from AllocateFromPoolForAdditionalFamily(key, svc, lbIPs[0], c.ips.Pool(key), …) under len(lbIPs) == 1 && PreferDualStack and only for a Service whose pair the next sync keeps (dual-stack cluster IPs, as serviceFamilyChanged requires); that allocator method assigns {existingIP, new} and searches only the named pool", 5)
 	f := need(hp, p, "controller", "controller", "convergeBalancer")
 	if f == nil {
 		return
@@ -220,6 +223,26 @@ func c03Converge(p *chk.Prog, r *chk.Report) {
 	for _, s := range gains {
 		ga.Check("converge:gain-guard", s.Pos(), g.Dominated(s, g.GPat(true, "len(L) == 1 && P == PD", L, chk.H("PD", constStr(f, "PreferDualStack")))), "", "an address can be added outside len(lbIPs) == 1 && PreferDualStack")
 	}
+	// The pair written after a gain is read back by the next sync, which keeps a dual-stack pair only when
+	// serviceFamilyChanged accepts it. Unless that function accepts a PreferDualStack pair whatever the cluster-IP
+	// family, the gain has to be limited to Services whose cluster IPs are dual-stack.
+	acceptsAny := false
+	if sfc := p.LookupFunc("controller", "", "serviceFamilyChanged"); sfc != nil && sfc.Decl.Type.Params.NumFields() == 3 {
+		sg := sfc.Graph()
+		pol := sg.GPat(true, "P == PD", chk.H("P", isParamIdx(sfc, 2)), chk.H("PD", constStr(sfc, "PreferDualStack")))
+		dual := sg.GPat(true, "C == ipfamily.DualStack", chk.H("C", isParamIdx(sfc, 1)))
+		for _, rt := range sg.Returns() {
+			rr := retResults(rt)
+			if len(rr) == 1 && sfc.IsConstBool(rr[0], false) && sg.Dominated(rt, pol) && !sg.Dominated(rt, dual) {
+				acceptsAny = true
+			}
+		}
+	}
+	for _, s := range gains {
+		dual := g.GPat(true, "F == ipfamily.DualStack", chk.H("F", definedByIdx(g, f, "ipfamily.ForService(S)", 0, chk.H("S", svc))))
+		ga.Check("converge:gain-survives-next-sync", s.Pos(), acceptsAny || g.Dominated(s, dual), "",
+			"a PreferDualStack Service with single-stack cluster IPs gains the other family, and the next sync clears the pair as a family change (serviceFamilyChanged accepts a dual-stack pair only for dual-stack cluster IPs): the Service alternates between one and two addresses for ever")
+	}
 	for _, c := range g.FindPat("RECV.ips.AllocateFromPoolForAdditionalFamily(K, S, E, POOL, ETC)", chk.H("K", key), chk.H("S", svc)) {
 		call := c.Node.(*ast.CallExpr)
 		ga.Check("converge:gain-args", c.Pos(), f.MatchWith("L[0]", call.Args[2], L) != nil && definedBy(g, "RECV.ips.Pool(K)", chk.H("K", key))(call.Args[3]), "",
@@ -300,7 +323,9 @@ func c03Rehome(p *chk.Prog, r *chk.Report) {
 	seenInstall := !(&chk.Walk{G: g, Stop: install, Hit: func(n ast.Node) bool { return n == ast.Node(rs.X) }}).Run().Found
 	_ = loopHead
 	x.Check("SetPools:install-before-walk", rs.Pos(), seenInstall, "", "allocations are re-homed against the old pool set")
-	uns := g.Find(func(n ast.Node) bool { return chk.InBody(rs, n) && f.MatchWith("RECV.Unassign(K)", asExpr(n), chk.H("K", svcK)) != nil })
+	uns := g.Find(func(n ast.Node) bool {
+		return chk.InBody(rs, n) && f.MatchWith("RECV.Unassign(K)", asExpr(n), chk.H("K", svcK)) != nil
+	})
 	x.Check("SetPools:unassign-sites", rs.Pos(), len(uns) == 2, "", "expected the drop site and the re-home site")
 	gone := g.GPat(true, "P == nil", chk.H("P", pool))
 	renamed := g.GPat(true, "P.Name != AL.pool", chk.H("P", pool), chk.H("AL", al))
@@ -334,8 +359,8 @@ func asExpr(n ast.Node) ast.Expr {
 func c03Unassign(p *chk.Prog, r *chk.Report) {
 	x := r.Rule("UNASSIGN-OWN-KEY", "D ownership", "Allocator.Unassign is called only from assign, SetPools (allocator) and clearServiceState, SetBalancer, allocateIPs (controller), and the controller sites pass the handler's own key/name parameter", 5)
 	allowed := map[string]string{
-		allocA + "assign":   "svc",
-		allocA + "SetPools": "",
+		allocA + "assign":                            "svc",
+		allocA + "SetPools":                          "",
 		"(*controller.controller).clearServiceState": "key",
 		"(*controller.controller).SetBalancer":       "name",
 		"(*controller.controller).allocateIPs":       "key",
